@@ -985,6 +985,11 @@ func (h *headReader) Read(ctx context.Context, out frame.Frame) (n int, err erro
 	if h.n <= 0 {
 		return 0, sliceio.EOF
 	}
+	if h.n < out.Len() {
+		// Do not let the underlying reader write rows that we will not
+		// return.
+		out = out.Slice(0, h.n)
+	}
 	n, err = h.reader.Read(ctx, out)
 	h.n -= n
 	if h.n < 0 {
